@@ -53,6 +53,14 @@ def build_scenarios(ctx, paths, rnd):
                      "flush": C08.FLUSHES[(i * 5 + i // 7) % len(C08.FLUSHES)], "rseed": ctx.seed * 7919 + i, "nops": nops,
                      "init": "manifest" if i % 3 == 1 else "empty", "fail": f, "failpct": pct,
                      "failk": 2 * kbudget, "saves": 3, "namemode": NAMECLASSES[i % len(NAMECLASSES)], "gen": "random"})
+    for sc in scns:
+        if sc["gen"] == "random" and sc["flush"] in ("flushall", "flushlong", "flushdir", "mixed") and sc["id"] % 3 != 0:
+            sc["hold"] = True         # background block writes stay pending across the next call
+    # (2b) a call while the block write of an asynchronous Flush is still pending (incl. a pure truncate-grow)
+    for sc in C08.pending_flush_scenarios(sid + 1, ctx.seed, rnd):
+        sid += 1
+        sc.update({"id": sid, "fail": "", "saves": 1, "namemode": ""})
+        scns.append(sc)
     # (3) load a generated manifest and save it unchanged
     for i in range(60 if ctx.thorough else 12):
         sid += 1
@@ -125,12 +133,13 @@ def run(ctx):
     ctx.extra["flushdir_observations"] = nobs
     events = [e for e in events if e["ev"] != "stored"]
     traces = vlib.split_traces(events)
-    C08.infra_events(ctx, traces, save_hang_ok=True)
+    deferred = C08.infra_events(ctx, traces, save_hang_ok=True)
     events = [e for t in traces for e in t]
     ctx.evaluations = len(traces)
     ctx.extra["events_judged"] = len(events)
     C08.install_classifier(ctx)
     C08.judge_fast(ctx, SD, "CollFSStoreTrace", "Judge_CollFSStore_C09.cfg", events, scenario_of=by_id, timeout=2400)
+    C08.raise_deferred(ctx, deferred)
     nontrivial = set()
     saves_ok = saves_err = putfail = 0
     for t in traces:
